@@ -75,12 +75,20 @@ MANIFEST = dict(
                 "bounded work and absence of stuck states are ALSO checked on the real code by the real-loop drain oracle (real ssnet.runonce "
                 "passes with the environment's actual readiness)."),
     level_note=("Trusted: as C01. Liveness is proved over the model as: no stuck state (C02_no_stuck_state), per-handler progress "
-                "(C02_wakeup_*), and bounded work (C02_bounded_work: every effective move of the loop uses up some of a finite "
-                "measure). What remains outside the theorems is the scheduler itself: that the real select loop actually makes an "
-                "effective move whenever one exists (select reports the readiness pre_select asked for; the loop gives every handler "
-                "its callback) - that is what the real-loop drain oracle decides on the real code for the generated schedules, "
-                "together with 'the real loop's rest states are fixpoints of fully-ready callbacks and satisfy Quiet', checked on "
-                "every run on the real objects and on the model state."),
+                "(C02_wakeup_*, C02_unquiet_handler_is_woken), bounded work (C02_bounded_work: every effective move of the loop "
+                "uses up some of a finite measure), and the scheduler itself: Code/Loop.lean models one ssnet.runonce pass with "
+                "the model choosing which handler gets how many callbacks from what the handlers asked for and what select "
+                "reports; a pass is a schedule of loop moves for ANY select answer (C02_round_is_run); a pass in the "
+                "environment as it is that does not lower the measure leaves its end quiet "
+                "(C02_pass_without_progress_is_quiet); every handler has had its callback between passes "
+                "(C02_noticed_between_passes); hence C02_loop_history_completes: after any history of the loop's own alphabet, "
+                "once a pass at each end no longer lowers the measure (at most worldMu effective passes, "
+                "C02_effective_passes_bounded) the world is Quiet and complete. Outside the theorems: the operating system's "
+                "select answering truthfully, and the tie of World.round to the real ssnet.runonce, which is this check's "
+                "correspondence: every real pass (the drain's and the generator's) is one `round` line the model executes on "
+                "its own, and the state after the pass and the number of callbacks made are compared; the real loop is also "
+                "held to the theorems pass by pass (measure never up, down if anything changed, an idle pass leaves its end "
+                "quiet) and its rest states to Quiet."),
     technique="Lean 4 proof (invariants over all schedules, progress, termination measure) + differential replay + real-loop drain oracle on the real classes",
 )
 
